@@ -82,13 +82,15 @@ func c05(r *core.Run) {
 }
 
 func c30(r *core.Run) {
-	r.Expl = "C30 (queries during write-outs): decides the two immutability facts the per-day snapshot argument needs — committed column bytes are never rewritten (write mode seeks only to the committed offset, no truncate, ModeWrite without O_TRUNC/O_APPEND, block offset recorded = committed offset) and the metadata file is replaced only by rename of a fully written temp file in the same directory with a single writer — plus the reader's reopen-on-missing-file recovery retrying exactly once after a successful reopen, without a loop, and the reader never handing out data whose decoded length mismatches. NOT decided: the interleavings themselves."
+	r.Expl = "C30 (queries during write-outs): decides the two immutability facts the per-day snapshot argument needs — committed column bytes are never rewritten (write mode seeks only to the committed offset, no truncate, ModeWrite without O_TRUNC/O_APPEND, block offset recorded = committed offset) and the metadata file is replaced only by rename of a fully written temp file in the same directory with a single writer — plus the reader's reopen-on-missing-file recovery retrying exactly once after a successful reopen, without a loop, GPDir.Open in read mode reacting to a missing metadata file by relocating the (renamed) day directory and opening again rather than trusting an earlier probe, and the reader never handing out data whose decoded length mismatches. NOT decided: the interleavings themselves."
 	r.Floor = 20
 	p := r.Prog("cgo")
-	r.Rules = append(r.Rules, "commit-protocol", "open-resume", "reader-recovery", "writeBlock-trace", "read-path")
+	r.Rules = append(r.Rules, "commit-protocol", "open-resume", "reader-recovery", "buffer-ownership", "writeBlock-trace", "read-path")
 	ruleMetaAtomic(r, p)
 	ruleOpenResume(r, p)
 	ruleReadRetryOnce(r, p)
+	ruleOpenRecovery(r, p)
+	ruleLentBuffers(r, p)
 	ruleWriteBlockTrace(r, p, map[string]bool{"no-foreign-seek-or-truncate": true, "block-offset-is-committed-offset": true, "flush-after-last-emit": true})
 	ruleReadPath(r, p)
 	ruleCommittedOffsetRoles(r, p)
